@@ -1,5 +1,7 @@
 # C03(a): data-race freedom and safe publication of the lock-free core, C++20 happens-before over all SC interleavings (E2, mode hb)
 import C01, C07
+from speclib import histories
+import itertools
 
 
 def plan(tier):
@@ -16,4 +18,31 @@ def plan(tier):
              dict(engine='e2', name='mutex_hb', tu='C07.cpp', mode='hb', scenarios=mtx, opts={'loop_bound': 3, 'rec_bound': 2}, timeout_s=900,
                   space='the C07 contention scenarios: the critical section writes plain shared cells (owner, grant counter, statistics), so mutual exclusion must be backed by happens-before',
                   bounds='2 threads; all SC interleavings', outside='as above')]
+    # (b) lock discipline of the mutex-protected components (E1, -DVF_DISCIPLINE)
+    L = 3 if tier == 'quick' else 4
+    def hist(alpha, extra=()):
+        out = []
+        for h in histories(alpha, L, L):
+            out.append(list(extra) + [len(h)] + h)
+        return out
+    qv = hist(5)
+    lqv = [[lim] + v for lim in (0, 1) for v in hist(6)] if tier != 'quick' else [[lim] + v for lim in (0, 1) for v in hist(6) if sum(v) % 2 == 0]
+    sv = []
+    for n in range(1, (3 if tier == 'quick' else 4)):
+        for ks in itertools.product(range(4), repeat=n):
+            if 0 not in ks: continue
+            for var in range(3 if tier == 'quick' else 6):
+                v = [n]
+                for j, k in enumerate(ks): v += [k, (j + var) % 3 if k != 0 else (j * (var + 1)) % 3, (j + 2 * var) % 4]
+                sv.append(v)
+    pv = [v for v in hist(8) if tier != 'quick' or (sum(v) % 2 == 1)]
+    def unit(name, part, entry, vectors, space, conc):
+        return dict(engine='e1', name=name, tu='C03.cpp', defines=['C03_PART=%d' % part, 'VF_DISCIPLINE'], entry=entry, unwind=12, vectors=vectors, concrete=conc,
+                    space=space, data='pushed / published values symbolic', bounds='histories of %d operations' % L,
+                    outside='thread_pool (its std::thread / condition_variable use is modelled in C11); accesses made by user callbacks',
+                    cbmc_extra=('--max-field-sensitivity-array-size', '1024') if part == 4 else ())
+    units += [unit('disc_queue', 1, 'h_disc_queue', qv, 'queue<int>: every history over {push, pop, unblock_pop, size, empty}: every access to the queue object and to heap blocks it allocated under its lock happens with the lock held', [([2, 0, 1], [5]), ([3, 1, 0, 3], [7])]),
+              unit('disc_lqueue', 2, 'h_disc_lqueue', lqv, 'limited_queue<int>, limits 1..2: {push, pop, unblock_pop, unblock_push, size, empty}', [([0, 3, 0, 0, 1], [1, 2]), ([1, 2, 1, 0], [3])]),
+              unit('disc_sched', 3, 'h_disc_sched', sv, 'scheduler in manual mode: {sleep_until, cancel, remove, get_expired} over 3 ids and 4 time points', [([2, 0, 0, 1, 1, 0, 2], []), ([1, 0, 1, 3], [])]),
+              unit('disc_pub', 4, 'h_disc_pub', pv, 'publisher<long>(2,1) with a subscriber and its copy: {publish, publish batch, next_ready, copy, kick, position, close}', [([2, 0, 2], [9]), ([3, 0, 3, 4], [4])])]
     return units
